@@ -27,6 +27,7 @@ def main : IO UInt32 := do
   | ["model", "cfg"] => loopState stdin stdout Cfg.driverStep {}
   | ["model", "interval"] => loopState stdin stdout Interval.driverStep ⟨0, []⟩
   | ["model", "auxtable"] => loopState stdin stdout AuxTable.driverStep {}
+  | ["model", "forest"] => loopState stdin stdout Forest.driverStep {}
   | _ => IO.eprintln s!"unknown model line: {first}"; return 2
   stdout.flush
   return 0
